@@ -4,7 +4,7 @@
 set -e
 export GOFLAGS=-mod=mod GOPROXY=off GOSUMDB=off GOTOOLCHAIN=local
 S=$1; MODE=$2
-V=/verif
+V=$(dirname $(realpath $0))
 [ -x $V/bin/vinstr ] || (cd $V/engine/vinstr && go build -o $V/bin/vinstr .)
 mkdir -p $S
 cp -r $V/engine/vs $S/vs
